@@ -151,6 +151,32 @@ def run(ctx, idx):
                     break
                 if inner:
                     raise AnalysisError("C16.b: the result-name source `%s` is picked up by a loop over the arguments; which argument it ends up holding is outside the recognised forms" % v.id)
+    rn_ = raw_args.get("result_name")
+    if order is not None and not ok and not order and isinstance(rn_, ast.Name):
+        # one variable assigned, in a walk over the arguments, under a test that admits BOTH candidate arguments and never looks at
+        # what the variable already holds, with no break: whichever of the two is WRITTEN LAST in the file wins - the documented
+        # precedence (NewFieldName before InFieldName) holds only for files that list them in the conventional order
+        for lp_ in [n for n in own_nodes(fi.node) if isinstance(n, ast.For) and isinstance(n.target, ast.Name) and K.src(n.iter).endswith(".arguments")]:
+            av_ = lp_.target.id
+            for if_ in [n for n in ast.walk(lp_) if isinstance(n, ast.If)]:
+                asg_ = [st for st in if_.body if isinstance(st, ast.Assign) and any(isinstance(t, ast.Name) and t.id == rn_.id for t in st.targets)]
+                if not asg_ or any(isinstance(x, ast.Break) for st in if_.body for x in ast.walk(st)):
+                    continue
+                names_ = set()
+                for c_ in ast.walk(if_.test):
+                    if isinstance(c_, ast.Compare) and len(c_.ops) == 1 and K.src(c_.left) == "%s.name" % av_:
+                        if isinstance(c_.ops[0], ast.In) and isinstance(c_.comparators[0], (ast.Tuple, ast.List, ast.Set)):
+                            names_ |= {x.value for x in c_.comparators[0].elts if isinstance(x, ast.Constant)}
+                        elif isinstance(c_.ops[0], ast.Eq) and isinstance(c_.comparators[0], ast.Constant):
+                            names_.add(c_.comparators[0].value)
+                looks_ = any(isinstance(x, ast.Name) and x.id == rn_.id for x in ast.walk(if_.test))
+                if {"NewFieldName", "InFieldName"} <= names_ and not looks_ and ("%s.value" % av_) in K.src(asg_[0].value):
+                    ctx.ob("C16.b", "%s::result-name" % fi.key, utils.rel, asg_[0].lineno, False,
+                           "`%s` is assigned for NewFieldName and for InFieldName alike while the arguments are walked, without a look at what it already holds: the one written LAST wins, so `READ(NewFieldName = b, InFieldName = a)` is named `a` - the precedence own name, NewFieldName, InFieldName holds only for files that list the arguments in that order" % rn_.id)
+                    order = None
+                    break
+            if order is None:
+                break
     if order is None:
         pass
     elif not ok and not order:
